@@ -366,7 +366,7 @@ fn case() -> impl Strategy<Value = Case> {
 fn run(ctx: &Ctx) -> Report {
     let mut rep = Report::new(RULE);
     rep.assume("the sandbox lives under /verif/.work; `mlar` is the binary built from the tree into /verif/target/repo");
-    if !Path::new(cli::MLAR).exists() {
+    if !Path::new(&cli::mlar_path()).exists() {
         rep.inconclusive = Some("mlar binary missing".into());
         return rep;
     }
